@@ -163,12 +163,12 @@ Definition scan_plain_scalar : M token :=
      | S f =>
        look ops 4 ;;;
        s <- get ;;
-       di <- (if sc_lws s then next_is_document_indicator ops else ret false) ;;
+       di <- (if sc_lws s && (m_col (sc_mark s) =? 0) then next_is_document_indicator ops else ret false) ;;
        c <- peek ops ;;
        if di || (c =? 35) then ret (acc, endm) else
        nc <- peekn ops 1 ;;
        let fl := 0 <? sc_flow_level s in
-       if fl && (c =? 45) && is_flow nc then fail 76 (sc_mark s) else
+       if (match acc with [] => true | _ => false end) && fl && (c =? 45) && is_flow nc then fail 76 (sc_mark s) else
        cb <- (if is_blank_or_breakz c then ret false else next_can_be_plain_scalar ops fl) ;;
        r <- (if cb then
                let '(acc, lb, tb, ws) :=
@@ -334,7 +334,7 @@ Definition scan_block_scalar (literal : bool) : M token :=
      | S f =>
        k <- col ;; z <- next_is ops is_z ;;
        if negb (k =? indent) || z then ret (acc, lb, tb) else
-       de <- (if indent =? 0 then look ops 4 ;;; next_is_document_end ops else ret false) ;;
+       de <- (if indent =? 0 then look ops 4 ;;; next_is_document_indicator ops else ret false) ;;
        if de then ret (acc, lb, tb) else
        trailing_blank <- next_is ops is_blank ;;
        let acc :=
@@ -353,9 +353,11 @@ Definition scan_block_scalar (literal : bool) : M token :=
   z <- next_is ops is_z ;; k <- col ;;
   let acc := match chomp with
              | Strip => acc
-             | _ => let acc := nls lb acc in if z && (N.max indent 1 <=? k) then 10 :: acc else acc
+             | _ => let acc := nls lb acc in if (lb =? 0) && z && (N.max indent 1 <=? k) then 10 :: acc else acc
              end in
-  let acc := match chomp with Keep => nls tb acc | _ => acc end in
+  let acc := match chomp with
+             | Keep => let acc := nls tb acc in if negb (lb =? 0) && z && (0 <? k) then 10 :: acc else acc
+             | _ => acc end in
   m <- mark ;;
   ret ({| sp_start := cstart; sp_end := m |}, TScalar style (rev acc)).
 
